@@ -1,5 +1,5 @@
 (* C12/Run.v — evaluation of the model on harness cases (correspondence + spec oracle). *)
-From Relic Require Import Base.Prelude Base.Enc Base.Val Generated.C12_gen C12.Model C12.FsModel.
+From Relic Require Import Base.Prelude Base.Enc Base.Val Generated.C12_gen C12.Model C12.FsModel C12.AliasModel.
 
 Definition hdr (p : patch) : Z * Z * Z := (p_off p, p_old p, p_new p).
 Definition hdr_eqb (a b : Z * Z * Z) : bool :=
@@ -111,9 +111,30 @@ Definition run_history_case (v : val) : val :=
           VB (canon (spec_outpath outpath (h_name h))); listing s' (h_ino h); VB (data_of s' (h_ino h))]
   end.
 
-(* entry point: [0 case], [1 hdrcase] or [2 histcase] *)
+(* ------------------------------------------------------------------ aliased blobs (C12/AliasModel.v)
+   input  [bufs calls file]   calls: [off old buf i j k]  = Add(off, old, bufs[buf][i:j:k])
+   output [patches buffers_after status out spec in_domain views_ok]   patches: [off old new blob] in Add order *)
+Definition vhcall (v : val) : hcall :=
+  let i := vz (vnth 3 v) in
+  mkHC (vz (vnth 0 v)) (vz (vnth 1 v)) (mkView (Z.to_nat (vz (vnth 2 v))) i (vz (vnth 4 v) - i) (vz (vnth 5 v) - i)).
+Definition run_alias_case (v : val) : val :=
+  let h0 := map vb (vl (vnth 0 v)) in
+  let cs := map vhcall (vl (vnth 1 v)) in
+  let file := vb (vnth 2 v) in
+  let st := hadd_all h0 cs in
+  let ps := denote st in
+  let snaps := map (snap h0) cs in
+  let r := rewrite (isort ps) file in
+  VL [VL (map (fun p => VL [VZ (p_off p); VZ (p_old p); VZ (p_new p); VB (p_blob p)]) ps);
+      VL (map VB (firstn (length h0) (fst st)));
+      VZ (status_of r); VB (match r with Ok b => b | _ => [] end);
+      VB (splice_calls snaps file); of_bool (in_domain snaps file);
+      of_bool (forallb (fun c => view_okb h0 (hc_view c)) cs)].
+
+(* entry point: [0 case], [1 hdrcase], [2 histcase] or [3 aliascase] *)
 Definition run (v : val) : val :=
   if vz (vnth 0 v) =? 0 then
     let '(codes, dom) := check_case (vnth 1 v) in VL [VZs codes; of_bool dom]
   else if vz (vnth 0 v) =? 2 then run_history_case (vnth 1 v)
+  else if vz (vnth 0 v) =? 3 then run_alias_case (vnth 1 v)
   else VL [VZs (check_headers (vnth 1 v)); VZ 0].
